@@ -30,8 +30,13 @@ impl Rng {
 /// optional "scale": {"p": k} multiplies every value by 2^k ; "neg": true negates ; "shift": value adds
 pub fn expand(d: &Value) -> Vec<f64> {
     let mut blocks: Vec<(f64, usize)> = Vec::new();
-    for b in d["rle"].as_array().expect("rle") {
-        blocks.push((enc::dec_f64(&b[0]), b[1].as_u64().unwrap() as usize));
+    if let Some(n) = d.get("iota").and_then(|x| x.as_u64()) {
+        // the distinct values 0 .. n-1
+        for i in 0..n { blocks.push((i as f64, 1)); }
+    } else {
+        for b in d["rle"].as_array().expect("rle") {
+            blocks.push((enc::dec_f64(&b[0]), b[1].as_u64().unwrap() as usize));
+        }
     }
     let total: usize = blocks.iter().map(|b| b.1).sum();
     let mut v: Vec<f64> = Vec::with_capacity(total);
@@ -353,12 +358,28 @@ fn prop_ci(case: &Value) -> Value {
         "stats_new" => ok_f64(proportion::Stats::new(n, k).ci(conf)),
         "stats_from_iter" => ok_f64(proportion::Stats::from_iter((0..n).map(|i| i < k)).ci(conf)),
         "stats_extend" => {
-            let data: Vec<bool> = (0..n).map(|i| i % 2 == 0 && i / 2 < k || i % 2 == 1 && n - 1 - i / 2 < k.saturating_sub((n + 1) / 2)).collect();
-            // deterministic but unordered layout; recount to make sure exactly k successes are fed
-            let cnt = data.iter().filter(|&&b| b).count();
-            let data: Vec<bool> = if cnt == k { data } else { (0..n).map(|i| i >= n - k.min(n)).collect() };
+            // two consecutive bulk calls on the same state
+            let data: Vec<bool> = (0..n).map(|i| (i * 7 + 3) % n.max(1) < k).collect();
+            let data: Vec<bool> = if data.iter().filter(|&&b| b).count() == k { data } else { (0..n).map(|i| i < k).collect() };
+            let cut = n / 3;
             let mut s = proportion::Stats::default();
-            s.extend(&data);
+            s.extend(&data[..cut].to_vec());
+            s.extend(&data[cut..].to_vec());
+            ok_f64(s.ci(conf))
+        }
+        "stats_mixed" => {
+            // a history mixing every way of feeding a running Stats: (n, k) in total
+            let k1 = k / 3; let f1 = (n - k) / 3;                       // first part through new()
+            let k2 = (k - k1) / 2; let f2 = (n - k - f1) / 2;           // second part through extend
+            let k3 = k - k1 - k2; let f3 = n - k - f1 - f2;             // rest through extend_if and single adds
+            let mut s = proportion::Stats::new(k1 + f1, k1);
+            let chunk: Vec<bool> = (0..k2 + f2).map(|i| i >= f2).collect();
+            s.extend(&chunk);
+            let k3a = k3 / 2; let f3a = f3 / 2;
+            let vals: Vec<i32> = (0..(k3a + f3a) as i32).map(|i| if (i as usize) < k3a { -1 - i } else { i }).collect();
+            s.extend_if(&vals, |&x| x < 0);
+            for _ in 0..(k3 - k3a) { s.add_success(); }
+            for _ in 0..(f3 - f3a) { s.add_failure(); }
             ok_f64(s.ci(conf))
         }
         "stats_extend_if" => {
